@@ -191,6 +191,10 @@ async fn host_program(log: Log<Ev>, me: usize, s: Scn, ips: Vec<IpAddr>, ports: 
         }
         match act {
             Act::Bind(k) => {
+                if live.contains_key(k) {
+                    // racy scripts can reorder a re-bind before the drop of the old socket
+                    continue;
+                }
                 let spec = s.socks[*k].clone();
                 let ip = if spec.local_bind { lo(s.v6) } else { any };
                 match UdpSocket::bind(SocketAddr::new(ip, spec.port)).await {
@@ -747,7 +751,7 @@ pub fn run(ctx: &Ctx) -> ! {
         let report = vcore::run_single(ctx, move |_| scenario(gen(seed, ov)));
         vcore::finish(ctx, report, fin());
     }
-    let n = ctx.pick(6000u64, 200_000);
+    let n = ctx.pick(30_000u64, 500_000);
     let c2 = ctx.clone();
     let report = vcore::run_parallel(
         ctx,
